@@ -63,6 +63,9 @@ type question struct {
 	kind qKind
 	n    uint64
 	view string // for qState: key of the view ("state/n5", "state/h0x..")
+	// header-derived answer by block number: inside [floor-BlockHashLag, floor) Juno
+	// documents it as retained (get_block_hash syscall of the blocks above the floor)
+	hdrByNum bool
 }
 
 func splitFirst(s string) (head, rest string) {
@@ -128,7 +131,7 @@ func (ix *index) classify(k string) question {
 		}
 		switch sub {
 		case "header", "tx_count", "state_root", "hash":
-			return question{kind: qBlock, n: n} // served from the header: block-hash-lag carve-out
+			return question{kind: qBlock, n: n, hdrByNum: true} // served from the header: block-hash-lag carve-out
 		}
 		return question{kind: qBlockBody, n: n}
 	}
@@ -241,6 +244,13 @@ func judge(ix *index, c judgeCtx, F uint64, oP, oT chain.Obs, stats map[string]i
 				continue
 			}
 			stats["cmp_below_floor_answers"]++
+			if q.hdrByNum && q.n+core.BlockHashLag >= F {
+				stats["cmp_lag_window_header_answers"]++
+				if p != t {
+					fs.add(prefix+"below-floor:block-hash-lag-header-missing:"+category(k), ex+fmt.Sprintf(" (floor %d: headers of [floor-%d, floor) are documented as retained for the get_block_hash syscall)", F, core.BlockHashLag))
+				}
+				continue
+			}
 			if isErr(p) {
 				stats["below_floor_refused"]++
 				continue
